@@ -12,7 +12,7 @@ Two kinds of cases, both judged by ``check_case``:
    "first": 0, "pre": [[3, 0]], "forced": [1]}
       2-3 threads run their operations on one pre-populated cache under the harness-owned baton
       scheduler (vt/ref/sched.py): a thread can be pre-empted at every line (opcode) inside the
-      LRUCache methods, ``cache._wlock`` is a scheduler-aware lock.  Oracle: linearizability
+      LRUCache methods, every lock the cache creates is a scheduler-aware lock.  Oracle: linearizability
       against the model (brute force over all orders compatible with program order and the
       observed real-time order), results and final state; no call raises anything but the
       KeyError the model predicts; no deadlock.
@@ -50,7 +50,9 @@ ASSUMPTIONS = [
     "capacity >= 1 (Environment never builds an LRUCache(0): create_cache returns None for size 0)",
     "concurrency is explored at Python line (thorough: also opcode) granularity under the GIL with a deterministic scheduler; "
     "races inside C-level deque/dict operations (free-threading) are out of reach",
-    "the scheduler-aware lock replaces the instance attribute cache._wlock; a method that uses some other lock object is not modelled",
+    "the cache's lock is made scheduler-aware by substituting jinja2.utils.Lock (the name LRUCache._postinit calls) for the duration of a "
+    "concurrent case, so a lock created or replaced in the middle of a schedule is scheduler-aware too; a lock obtained some other way "
+    "(e.g. threading.Lock() spelled out) can only end in the wall-clock watchdog (exit 2, never a violation)",
     "pre-emption bound 3 (quick) / 5 (thorough); at most 9 concurrent operations",
 ]
 
@@ -270,6 +272,7 @@ def _check_seq(case):
 
 _state = {}
 _watchdog_fired = [False]
+_MISSING = object()
 
 MUTATORS = ("__getitem__", "__setitem__", "__delitem__", "clear")
 
@@ -278,7 +281,10 @@ def _setup():
     if not _state:
         from jinja2.utils import LRUCache
 
+        import jinja2.utils
+
         _state["cls"] = LRUCache
+        _state["utils"] = jinja2.utils
         _state["codes"] = frozenset(f.__code__ for f in vars(LRUCache).values() if isinstance(f, types.FunctionType))
     return _state
 
@@ -382,12 +388,27 @@ def _check_conc(case, exclude_known=True):
         raise core.HarnessError("concurrent case uses keys outside %r" % CKEYS)
     if exclude_known and in_known_class(case):
         raise core.Excluded()
+    s = _sched.Scheduler(n, case["first"], case["pre"], case["forced"], st["codes"], opcode=(case.get("gran") == "opcode"), max_steps=4000)
+    # Every lock the cache creates while the case runs (LRUCache._postinit uses the module global ``Lock``) must be
+    # scheduler-aware, also one created by a method that re-initialises the cache in the middle of the schedule.
+    utils = st["utils"]
+    saved = getattr(utils, "Lock", _MISSING)
+    utils.Lock = s.make_lock
+    try:
+        return _run_conc(case, st, s, cap, init, threads, n)
+    finally:
+        if saved is _MISSING:
+            del utils.Lock
+        else:
+            utils.Lock = saved
+
+
+def _run_conc(case, st, s, cap, init, threads, n):
     cache = st["cls"](cap)
+    if not isinstance(getattr(cache, "_wlock", None), _sched.SLock):
+        cache._wlock = s.make_lock()
     for k, v in init:
         cache[k] = v
-    s = _sched.Scheduler(n, case["first"], case["pre"], case["forced"], st["codes"], opcode=(case.get("gran") == "opcode"), max_steps=4000)
-    lock = s.make_lock()
-    cache._wlock = lock
     log = []
 
     def body(t):
@@ -417,8 +438,8 @@ def _check_conc(case, exclude_known=True):
         raise core.Violation("%s: deadlock: %s" % (desc, s.deadlock))
     if s.overrun:
         raise core.Violation("%s: the operations did not finish within %d line steps" % (desc, s.max_steps))
-    if lock.owner is not None:
-        raise core.Violation("%s: the cache lock is still held after all calls returned" % desc)
+    if any(lk.owner is not None for lk in s.locks):
+        raise core.Violation("%s: a cache lock is still held after all calls returned" % desc)
     results = {}
     before = set()
     returned = []
@@ -451,8 +472,10 @@ def _check_conc(case, exclude_known=True):
     labels = ["conc", "threads=%d" % n, "pre=%d" % len(s.preemptions), "gran=" + case.get("gran", "line")]
     if inside:
         labels.append("pre_in_mutator")
-    if lock.contended:
+    if any(lk.contended for lk in s.locks):
         labels.append("lock_contended")
+    if not isinstance(getattr(cache, "_wlock", None), _sched.SLock):
+        labels.append("foreign_lock")
     if any(r == ["KeyError"] for r in results.values()):
         labels.append("keyerror")
     if len(final) < min(cap, len(init)) or any(op[0] == "set" and len(init) >= cap for ops in threads for op in ops):
